@@ -75,7 +75,7 @@ func c18(c *Ctx) {
 			inc := one(c, "numRetries increment", storesToField(f, cs("numRetries")))
 			c.ValueIs(inc, inc.Val, "increment-by-one", BinOpV(token.ADD, FieldLoad(cs("numRetries")), ConstInt(1)))
 			c.Dominates(inc, r, "counted-before-retrying")
-			c.Expect(inc.Block() == r.Block(), inc, f, "counted-only-on-timer-arm", "the retry counter is incremented outside the timer arm")
+			c.Expect(together(inc, r), inc, f, "counted-only-on-timer-arm", "the retry counter is incremented outside the timer arm")
 			// pushback: malformed / negative / multiple values never retry, and count as throttle failures
 			atoiErr := CallRes(CalleeX("strconv", "Atoi"), 1)
 			c.Unreachable(r, "malformed-pushback-never-retries", NotNil(atoiErr))
